@@ -249,6 +249,14 @@ var builtinCases = []shapeCase{
 	{"{x: a + b, y: [c]}", "{x: (a + b), y: [c]}"},
 	{"a.f(b, c)", "a.f(b, c)"},
 	{"a % b / c", "((a % b) / c)"},
+	{"c ? x : -a + b", "(c ? x : ((- a) + b))"},
+	{"c ? -x * y : !a && b", "(c ? ((- x) * y) : ((! a) && b))"},
+	{"a ^ -b * c", "((a ^ (- b)) * c)"},
+	{"a ^ -b ^ c", "(a ^ ((- b) ^ c))"},
+	{"(a == b) == c", "((a == b) == c)"},
+	{"a == (b == c)", "(a == (b == c))"},
+	{"(a < b) < (c < d)", "((a < b) < (c < d))"},
+	{"-(a + b) * c", "((- (a + b)) * c)"},
 }
 
 var rejectCases = []string{
@@ -337,4 +345,26 @@ func H08_span() {
 	p := e.Position()
 	sv.Assert("root-span-is-the-whole-expression", p.Idx == 2 && p.IdxEnd == len(rs)-1)
 	checkSpans(ops, src, e)
+}
+
+// H08_prefix_right: a prefix operator that starts the right operand of a
+// right-associative operator still takes exactly the operand its own power
+// dictates.
+func H08_prefix_right() {
+	pr, pu, pl := power("bp@"), power("bp~"), power("bp#")
+	ops := []oper.Operator{{Kind: "@", BP: pr, Fixity: oper.INFIX_R}, {Kind: "~", BP: pu, Fixity: oper.PREFIX}, {Kind: "#", BP: pl, Fixity: oper.INFIX_L}}
+	shape, class := parseWith(ops, "a @ ~ b # c")
+	sv.Assume(pu != pl && pl != pr && pu != pr)
+	switch {
+	case pu > pl && pl > pr:
+		sv.Assert("prefix-then-infix-inside-the-right-operand", class == "ok" && shape == "(a @ ((~ b) # c))")
+	case pu > pl && pr > pl:
+		sv.Assert("prefix-inside-infix-outside", class == "ok" && shape == "((a @ (~ b)) # c)")
+	case pl > pu:
+		sv.Assert("loose-prefix-takes-the-application", class == "ok" && shape == "(a @ (~ (b # c)))")
+	}
+	shape, class = parseWith(ops, "a @ (~ b) # c")
+	if pl > pr {
+		sv.Assert("redundant-parentheses-do-not-change-the-tree", class == "ok" && (pu < pl || shape == "(a @ ((~ b) # c))"))
+	}
 }
